@@ -30,7 +30,7 @@ pub fn plan(prop: &str) -> Vec<PlanEntry> {
         "C09" => vec![p("rc-wcells", 2), p("dir-w", 2)],
         "C10" => vec![p("rc-bulk", 5), p("dir-b", 1)],
         "C12" => vec![p("agesweep", 4), p("rc-mixed", 2), p("rc-bulk", 1), p("dir-t6", 2), p("dir-t9", 1)],
-        "C13" => vec![p("ebr", 3), p("ebr-churn", 2), p("ebr-longcs", 3), p("ebr-private", 1), p("rc-mixed", 1), p("dir-t9", 1), p("dir-t16", 1), p("chain-mid", 1), p("dir-t2", 1)],
+        "C13" => vec![p("ebr", 3), p("ebr-churn", 2), p("ebr-longcs", 3), p("ebr-private", 1), p("rc-mixed", 1), p("dir-t9", 1), p("dir-t16", 1), p("chain-mid", 1), p("dir-t2", 1), p("dir-t14", 1)],
         "C14" => vec![p("ebr", 2), p("ebr-churn", 3), p("ebr-longcs", 2), p("dir-t12", 2), p("guards", 1), p("rc-mixed", 1), p("rc-bulk", 1), p("dir-t6", 1)],
         "C15" => vec![p("ebr", 3), p("ebr-churn", 2), p("ebr-private", 2), p("tls", 1), p("dir-t13", 1), p("dir-t18", 1)],
         "C16" => vec![p("guards", 4), p("ebr", 1), p("ebr-longcs", 2), p("rc-mixed", 1), p("dir-t6", 1), p("dir-t8", 1), p("dir-t12", 1), p("dir-t17", 1)],
